@@ -35,6 +35,30 @@ def data_of(kind, n, rng):
     return rng.randbytes(n)
 
 
+def structured_plaintexts(ctx):
+    """Multi-block, moderately compressible plaintexts (JSON exports of random records), including ones whose raw
+    DEFLATE stream happens to START with the octets of a zlib header (0x78 / 0x9C): [(label, plaintext)]."""
+    import random
+    out, special = [], 0
+    for seed in range(400 if ctx.tier == "quick" else 3000):
+        r = random.Random(seed)
+        n = r.choice([200, 800, 1200, 2000])
+        recs = [{"id": "%032x" % r.getrandbits(128), "status": r.choice(["pending-review", "ok", "failed-validation"]), "n": "x" * r.randrange(6)}
+                for _ in range(n)]
+        p = json.dumps(recs).encode()
+        if len(p) > MAX:
+            continue
+        first = zlib.compress(p)[2]
+        if first in (0x78, 0x9C):
+            special += 1
+            out.append((f"records-seed{seed}-first{first:02x}", p))
+            if special >= (4 if ctx.tier == "quick" else 40):
+                break
+        elif len(out) < 3:
+            out.append((f"records-seed{seed}", p))
+    return out
+
+
 def lengths(ctx):
     base = [0, 1, 100, MAX - 2, MAX - 1, MAX, MAX + 1, MAX + 2, MAX + 100, MAX + 257, MAX + 258, MAX + 300, 2 * MAX]
     if ctx.tier == "thorough":
@@ -98,6 +122,27 @@ def run(ctx):
         mo = ("ok", wire.unhx(m[3:])) if m.startswith("ok ") else ("err", m[4:])
         if mo != res:
             ctx.disagreements.append({"suite": "zip-decompress", "request": ln[:200], "model": repr(mo)[:200], "impl": repr(res)[:200]})
+    # structured, multi-block plaintexts: compress must emit exactly the raw stream, and the JWE must round-trip
+    for label, p in structured_plaintexts(ctx):
+        comp = z.compress(p)
+        ctx.count("compress-structured", label, True, "first-%02x" % zlib.compress(p)[2])
+        ok = comp == zlib.compress(p)[2:-4]
+        try:
+            ok = ok and zlib.decompressobj(-15).decompress(comp) == p
+        except zlib.error:
+            ok = False
+        if not ok:
+            ctx.report("compress does not emit the raw DEFLATE stream of the plaintext", {"plaintext": label, "n": len(p), "raw_first_octet": zlib.compress(p)[2]},
+                       "compress:structured")
+        key = K.key("oct16")
+        try:
+            tok = jwe.encrypt_compact({"alg": "dir", "enc": "A128GCM", "zip": "DEF"}, p, key)
+            back = jwe.decrypt_compact(tok, key).plaintext
+            rt = "ok" if back == p else "different plaintext"
+        except Exception as e:  # noqa: BLE001
+            rt = err_name(e)
+        if rt != "ok":
+            ctx.report(f"a {len(p)}-octet plaintext (within the limit) does not round-trip with zip=DEF: {rt}", {"plaintext": label, "n": len(p)}, "roundtrip:structured")
     inflate_contract(ctx)
     end_to_end(ctx)
     memory(ctx)
